@@ -422,15 +422,16 @@ class World:
             return {'fn': k}
         if v is builtins.__dict__:
             return tok('special', '__builtins__')
-        if isinstance(v, type) and v.__module__ != 'builtins':
+        for n in POOL_BUILTINS:
+            if v is builtins.__dict__.get(n):
+                return tok('bi', n)
+        if isinstance(v, type) and v.__name__ == 'Cq':
+            # (a class made by exec without __name__ in globals reports __module__ == 'builtins')
             if id(v) in seen:
                 return {'seen': seen[id(v)]}
             k = seen[id(v)] = len(seen)
             return {'cls': k, 'attrs': [[a, self.dump(x, seen)] for a, x in vars(v).items()
                                         if not a.startswith('__')]}
-        for n in POOL_BUILTINS:
-            if v is builtins.__dict__.get(n):
-                return tok('bi', n)
         return {'unknown': type(v).__name__}
 
     def dump_env(self, d, seen):
@@ -468,7 +469,8 @@ def run_impl(case, upto=None):
             oracle = None
             facts = expr_facts(op['eval'])
             modwalrus = bool(facts & {'walrus-top-level', 'walrus-in-comprehension'})
-            use_oracle = clean_ns and not modwalrus and 'append' not in facts and 'dunder-read' not in facts
+            use_oracle = (clean_ns and not modwalrus and 'append' not in facts and 'dunder-read' not in facts
+                          and '__builtins__' not in context)
             if use_oracle:
                 oracle = plain_eval(w, src, context)
             try:
@@ -621,6 +623,7 @@ class Gen:
                 keys.append(k)
         if r.random() < 0.04:
             keys.append(r.choice(['save', '__builtins__']))
+        keys = list(dict.fromkeys(keys))
         r.shuffle(keys)
 
         def seq_cell(k, as_list):
@@ -713,7 +716,7 @@ class Gen:
             return self.comp(sc, depth)
         if x < 0.88:
             ps = r.sample(LOCALS + PLAIN_KEYS[:2] + SHADOW_KEYS[:1], r.choice([0, 1, 1, 2]))
-            inner = dict(sc, bound=sc['bound'] + ps, iters=[], in_comp=False, in_iter=False, in_cls=False,
+            inner = dict(sc, bound=sc['bound'] + ps, iters=[], in_comp=False, in_cls=False,
                          top=False, func=True)
             body = self.expr(inner, depth - 1)
             lam = Lam(ps, body)
@@ -745,10 +748,10 @@ class Gen:
             bound = bound + [t]
             conds = []
             if r.random() < 0.3:
-                csc = dict(sc, bound=bound, iters=iters, in_comp=True, in_iter=False, top=False)
+                csc = dict(sc, bound=bound, iters=iters, in_comp=True, top=False)
                 conds.append(self.expr(csc, min(depth - 1, 1)) if r.random() < 0.7 else C(r.choice([0, 1, 1])))
             clauses.append((t, it, conds))
-        esc = dict(sc, bound=bound, iters=iters, in_comp=True, in_iter=False, top=False)
+        esc = dict(sc, bound=bound, iters=iters, in_comp=True, top=False)
         elt = self.expr(esc, depth - 1)
         return Comp(elt, clauses, gen)
 
